@@ -172,7 +172,7 @@ class C19(Property):
                     v[0] += 1
                     p.append(["gs", k, None if rng.chance(0.2) else v[0]])
             progs.append(p)
-        return {"kind": "mp", "keys": keys, "progs": progs, "parts": 2}
+        return {"kind": "mp", "keys": keys, "progs": progs, "parts": 2, "wiring": rng.chance(0.6)}
 
     def generate(self, rng, tier):
         r = rng.below(1000)
@@ -223,8 +223,9 @@ class C19(Property):
         for cut in (["getter", 0], ["getter", 1], ["getter", 2], ["getter", 1, "base"], ["getter-call"], ["zero"], ["none"],
                     ["truncate", 0], ["truncate", 1], ["truncate", 10], ["truncate", 20], ["truncate", 1000]):
             cs.append({"kind": "disk", "lines": ["a,b", "c"], "lines2": ["second"], "cut": cut})
-        cs.append({"kind": "mp", "keys": ["a"], "parts": 2,
-                   "progs": [[["gs", 0, 1], ["rmv", 0], ["gs", 0, 2]], [["gs", 0, 3], ["gs", 0, None]], [["rmv", 0], ["gs", 0, 4]]]})
+        for wiring in (False, True):
+            cs.append({"kind": "mp", "keys": ["a"], "parts": 2, "wiring": wiring,
+                       "progs": [[["gs", 0, 1], ["rmv", 0], ["gs", 0, 2]], [["gs", 0, 3], ["gs", 0, None]], [["rmv", 0], ["gs", 0, 4]]]})
         return cs
 
     def f1_case(self):
@@ -324,9 +325,21 @@ class C19(Property):
                                    "single-flight-count"))
         else:
             tags.append("outside-quantifier")
+        # outside the quantifier (B) does not apply; the model mirrors the code with fixes/C19-getter-baseexception-lock-leak.diff,
+        # so a run in which a BaseException leaked the lock cannot be compared with it
+        base_leak = False
+        if res["base_raised"]:
+            evs = res["events"]
+            for n_, (t, e) in enumerate(evs):
+                if e[0] == "cpopFail":
+                    nxt = next((e2 for t2, e2 in evs[n_ + 1:] if t2 == t), None)
+                    if nxt != ["relW", e[1]]:
+                        base_leak = True
+        if base_leak and not wn:
+            tags.append("outside-quantifier-base-leak")
 
         model = None
-        if driver is not None and not fails:
+        if driver is not None and not fails and not base_leak:
             sched = [t for t, e in res["events"]]
             ans = driver.ask({"op": "replay", "idx": idx, "progs": [[[lean_instr(i) for i in seg] for seg in p] for p in progs], "sched": sched})
             model = {"events": len(ans["events"]), "stuck": ans["stuck"], "arr": ans["arr"], "terminal": ans["terminal"]}
@@ -434,6 +447,10 @@ class C19(Property):
     def eval_mp(self, case, driver):
         fails, tags = [], ["mp-real-array"]
         o = R.run_mp(case)
+        if case.get("wiring"):
+            tags.append("mp-wiring:" + str(o.get("wiring")).split(":")[0])
+            if str(o.get("wiring")).startswith("wiring run failed"):
+                fails.append(F("A", "CobaMultiprocessor.filter could not build its shared ConcurrentCacher (%s)" % o["wiring"], "A:mp-wiring-failed"))
         if o["alive"]:
             fails.append(F("B", "threads %s still waiting after 15 s on a real multiprocessing array+lock" % o["alive"], "mp-hang"))
         if o["nonzero"]:
